@@ -3,6 +3,7 @@
 package fault
 
 import (
+	"io"
 	"syscall"
 	"strings"
 	"errors"
@@ -258,6 +259,16 @@ func (fl *File) Read(p []byte) (int, error) {
 			}
 			fl.rec(Event{Op: "Read", Name: fl.name, Len: len(p), N: n, Err: "injected", Fault: m})
 			return n, fl.fs.ierr("Read", fl.name)
+		case "eof": // the file ends here although its size promised more
+			fl.rec(Event{Op: "Read", Name: fl.name, Len: len(p), Err: "EOF", Fault: m})
+			return 0, io.EOF
+		case "half-eof": // half of what was asked for, then the end
+			n := 0
+			if len(p) > 1 {
+				n, _ = fl.inner.Read(p[:len(p)/2])
+			}
+			fl.rec(Event{Op: "Read", Name: fl.name, Len: len(p), N: n, Err: "EOF", Fault: m})
+			return n, io.EOF
 		default:
 			fl.rec(Event{Op: "Read", Name: fl.name, Len: len(p), Err: "injected", Fault: m})
 			return 0, fl.fs.ierr("Read", fl.name)
